@@ -58,6 +58,10 @@ func (r *vfRec) emit(ev string, kv ...any) {
 	}
 	r.w.Write(b)
 	r.w.WriteByte('\n')
+	if ev == "reset" {
+		// So that the scenario in progress is known if the process dies.
+		r.w.Flush()
+	}
 }
 
 // raw writes a pre-built object without seq/t (vector lines).
